@@ -397,6 +397,8 @@ def oracle_invariants(case, impl):
     if p["kind"] != "ok":
         return None
     cmd, argv = decode_case(case)
+    if "ignore_errors" in cmd["settings"]:
+        return None      # partial matches after a swallowed error: the property speaks of completed parses
     lv = levels(p["m"])
     chain = [n for _, n in lv if n is not None]
     for (c, settings), (ents, _) in zip(walk_chain(cmd, chain), lv):
@@ -404,8 +406,8 @@ def oracle_invariants(case, impl):
         present = {}
         for e in ents:
             a = by_id.get(e["id"])
-            if a is None or e["src"] == "?":
-                continue
+            if a is None or e["src"] not in ("cmdline", "default"):
+                continue     # env-provided values are C06's; `?` = id not defined at this level
             act = action_of(a)
             flat = [v for g in e["occ"] for v in g]
             if act == "count" and not a.get("vp"):
